@@ -161,7 +161,8 @@ func (c *vCluster) advMessage(kind int, name string) (raw *interfaces.ConsensusR
 //   2: as 1, then one correct node (the highest index) also received the COMMITs of the others plus a
 //      genuine COMMIT of the Byzantine member and committed A; the others did not commit
 //   3: as 1 or 2 (param) followed by an election timeout at every correct node that has not committed
-func (c *vCluster) prefix(p int, thenTimeout bool) {
+func (c *vCluster) prefix(p int, timeouts int) {
+	thenTimeout := timeouts >= 1
 	if c.byz == 0 {
 		// Byzantine first leader: no honest proposal exists
 		if thenTimeout {
@@ -212,7 +213,31 @@ func (c *vCluster) prefix(p int, thenTimeout bool) {
 				c.nodes[i].timeout()
 			}
 		}
+		if timeouts >= 2 {
+			// the votes of this view change are lost; everybody times out once more
+			lost := func(from, to int, m interfaces.ConsensusMessage) bool { return false }
+			c.flush(lost)
+			for _, i := range c.correct() {
+				if len(c.nodes[i].commits) == 0 {
+					c.nodes[i].timeout()
+				}
+			}
+		}
 		c.flush(noCommits)
+		if env.Param("byzvote") == 1 {
+			// listed concrete Byzantine action: its genuine proof-less vote for the view the others timed out to
+			for _, i := range c.correct() {
+				if len(c.nodes[i].commits) == 0 {
+					v := c.nodes[i].m.state.View()
+					l := int(uint64(v) % 4)
+					if c.nodes[l] != nil {
+						c.nodes[l].deliver(c.wd.net.vcm(c.byz, 1, v, nil).ToConsensusRawMessage())
+					}
+					break
+				}
+			}
+			c.flush(noCommits)
+		}
 	}
 }
 
@@ -220,8 +245,18 @@ func (c *vCluster) prefix(p int, thenTimeout bool) {
 func C01_Run() {
 	byz := env.Param("byz")
 	c := newCluster(byz, equalWeights(4))
-	c.prefix(env.Param("prefix"), env.Param("timeout") == 1)
+	c.prefix(env.Param("prefix"), env.Param("timeout"))
 	c.checkAgreement()
+	if env.Param("debug") == 1 {
+		for _, i := range c.correct() {
+			n := c.nodes[i]
+			line := "node" + string(rune('0'+i)) + " view=" + string(rune('0'+int(n.m.state.View()))) + " commits=" + string(rune('0'+len(n.commits))) + " out:"
+			for _, s := range n.comm.Out {
+				line += " " + s.Msg.MessageType().String()[11:] + "@" + string(rune('0'+int(s.Msg.View())))
+			}
+			env.Note(line)
+		}
+	}
 	steps := env.Param("steps")
 	kinds := env.Param("kinds") // one decimal digit per step
 	class := env.Param("class") // 0: unrestricted; 1: only the known-finding class; 2: known-finding class excluded
